@@ -58,11 +58,11 @@ def cond_pool(X, Y):
     """[(expr, is_core)]"""
     return [
         (b, 1),
-        (NOT(b), 1),
+        (NOT(b), 0),
         (p(X), 1),
         (NOT(p(X)), 0),
-        (st(X), 1),
-        (("or", p(o1), b), 1),
+        (st(X), 0),
+        (("or", p(o1), b), 0),
         (("implies", b, p(X)), 0),
         (("iff", b, p(X)), 0),
         (("exists", VT, p(vT)), 1),
@@ -84,10 +84,10 @@ def eff_pool(X, Y):
     """[(tuple of effect specs, is_core)] - a slot may hold a compound of effects."""
     bp = ("or", b, p(X))
     return [
-        ((eff("assign", b, TRUE),), 1),
+        ((eff("assign", b, TRUE),), 0),
         ((eff("assign", b, FALSE),), 1),
         ((eff("assign", p(X), TRUE),), 0),
-        ((eff("assign", p(X), FALSE),), 1),
+        ((eff("assign", p(X), FALSE),), 0),
         ((eff("assign", p(Y), FALSE),), 1),
         ((eff("assign", b, p(X)),), 1),
         ((eff("assign", b, NOT(p(X))),), 0),
@@ -97,7 +97,7 @@ def eff_pool(X, Y):
         ((eff("assign", b, FALSE), eff("assign", b, TRUE, p(X))), 1),
         ((eff("assign", n, I(1)),), 1),
         ((eff("assign", n, I(2)),), 0),
-        ((eff("assign", n, I(2), b),), 1),
+        ((eff("assign", n, I(2), b),), 0),
         ((eff("inc", n, I(1)),), 1),
         ((eff("dec", n, I(1)),), 0),
         ((eff("inc", n, c(X)),), 0),
@@ -123,7 +123,7 @@ GOAL_POOL = [
     ((("eq", n, I(2)),), 1),
     ((NOT(b), p(o2)), 0),
     ((("forall", VT, p(vT)),), 0),
-    ((("eq", r(o1), o2),), 1),
+    ((("eq", r(o1), o2),), 0),
     ((("or", b, p(s1)),), 0),
     ((("le", ("r", 1, 2), m),), 0),
     ((("and", p(o1), b),), 0),
